@@ -29,6 +29,7 @@ ASSUMPTIONS = [
     "numpy/scipy arithmetic is trusted; the model sums with numpy dot products (different order than the kernels), tolerance rtol 1e-9 of the largest contributing sample",
     "the Parzen window support |f-fc| <= sqrt(6)*(280*pi/302)/b and the Konno-Ohmachi support 10^(+-3/b) are taken as the published truncations",
     "samples within 1e-9 (relative) of a window edge, or within 1e-6 Hz of the centre, are ambiguous: every admissible outcome is accepted",
+    "exception: a sample EXACTLY on the edge of the linear rectangular window where grid, centre and bandwidth are short dyadic numbers (no rounding in any formulation of the comparison) is decided by the closed support |f-fc| <= b/2 that all seven operators of the library use",
     "NUMBA_BOUNDSCHECK=1 turns out-of-range indexing inside the JIT kernels into IndexError (verified on a deliberately broken guard)",
 ]
 NOT_REACHED = ["narrow integer spectra (uint8/int16): Savitzky-Golay adds pairs of samples in the input dtype, so numpy wrap-around applies (seen with uint8; not judged)",
@@ -253,6 +254,31 @@ def fam_edges(ctx, rng):
     judge(ctx, meta, f, s, fcs, interpreted_too=True)
 
 
+def fam_dyadic_edges(ctx, rng):
+    """FFT grids whose bin spacing is exactly representable (power-of-two length and sampling rate, e.g. 128 Hz / 4096
+    samples), centre frequencies on a bin or midway between two, bandwidths that are whole multiples of the spacing:
+    samples then sit EXACTLY on the edges of the linear windows, without any rounding, and only the (closed) support
+    convention decides."""
+    name = str(rng.choice(["linear_rectangular", "linear_rectangular", "linear_triangular", "parzen", "log_rectangular",
+                           "konno_and_ohmachi"]))
+    n = int(2 ** rng.integers(6, 13))
+    fs_ = float(2 ** rng.integers(5, 10))
+    f = np.fft.rfftfreq(n, 1.0 / fs_)
+    df = fs_ / n
+    k = int(rng.integers(2, 24))
+    idx = rng.integers(2, f.size - 1, k)
+    fcs = f[idx] + df * rng.choice([0.0, 0.0, 0.5], k)
+    if name.startswith("linear"):
+        b = float(df * rng.integers(1, 17))
+    else:
+        b = gen_bandwidth(rng, name, f)
+    scls = str(rng.choice(["random", "constant", "random"]))
+    s = gen_spectrum(rng, scls, int(rng.integers(1, 4)), f)
+    meta = dict(name=name, n=n, dt=1.0 / fs_, nrows=s.shape[0], scls=scls, fcls="dyadic-edge", b=b)
+    ctx.describe(**meta, fcs=fcs)
+    judge(ctx, meta, f, s, np.ascontiguousarray(fcs), interpreted_too=(n <= 1024))
+
+
 def fam_linear_rows(ctx, rng):
     """Linearity and row independence / permutation on the real output only."""
     meta, f, x, fcs = gen_case(rng)
@@ -398,7 +424,7 @@ def fam_dtypes(ctx, rng):
 FAMILIES = [("non-float64-spectra", fam_dtypes), ("model-small-grid", fam_model_small), ("model-fft-grid", fam_model_fft),
             ("window-edges", fam_edges), ("linearity-rows", fam_linear_rows),
             ("sg-cubic", fam_sg_cubic), ("model-small-grid-2", fam_model_small),
-            ("boundscheck", fam_boundscheck)]
+            ("boundscheck", fam_boundscheck), ("exactly-representable-grid-edges", fam_dyadic_edges)]
 
 if __name__ == "__main__":
     if len(sys.argv) > 1 and sys.argv[1] == "--boundscheck":
